@@ -12,6 +12,7 @@ MODULES = [
     "resource_tracker",
     "cloudpickle_wrapper",
     "launch",
+    "synchronize",
     "properties",
 ]
 
